@@ -3,3 +3,5 @@ import RdsSpec.OpsFile
 import RdsSpec.TraceParse
 import RdsSpec.Monitors
 import RdsSpec.Statements
+import RdsSpec.Reference
+import RdsSpec.TableCheck
